@@ -642,6 +642,26 @@ func judgeConv(cfg childCfg, cv *conv, r convResult, out *workerOut) {
 		out.kinds["http-tunnel-get-post-race"]++
 		return
 	}
+	if r.noAnswer || r.noClose {
+		// a timing verdict reached among dozens of simultaneous conversations (and whatever else loads the machine) is
+		// confirmed before it is reported: the same conversation alone against a fresh server, twice. A server that
+		// really lacks a deadline fails every time; a verdict that does not reproduce is load (thorough-tier false
+		// alarm of 2026-09-23) and is only counted.
+		for k := 0; k < 2; k++ {
+			ch, err := startChild(cfg)
+			if err != nil {
+				break // cannot confirm: keep the verdict
+			}
+			r2 := runConv(ch.port, cfg.TLS, cv, blastTiming(cfg))
+			ch.kill()
+			ch.cleanup()
+			if !r2.noAnswer && !r2.noClose && r2.dialErr == nil {
+				out.kinds["timing-verdict-not-reproduced-alone"]++
+				return
+			}
+			r = r2
+		}
+	}
 	if r.noAnswer {
 		out.fails = append(out.fails, fail{"request-neither-answered-nor-closed", desc,
 			fmt.Sprintf("%s: a complete request got no response and the connection stayed open for %v (statuses %v)", cv.name, blastTiming(cfg).resp, r.statuses)})
